@@ -330,7 +330,12 @@ func TestC11FixedAndEnums(t *testing.T) {
 					if want != 0 {
 						tl.fail("enum-decode", c, "declared symbol %q of %s rejected: %v", text, n.Full(), err)
 					}
-					continue // an error for an unknown symbol is acceptable too ("never another symbol")
+					if want == 0 {
+						// "an unknown symbol read from the wire becomes the distinguished unknown value": a well-formed string that is
+						// no declared symbol is not an error (peers may know newer symbols)
+						tl.fail("enum-decode", c, "the unknown symbol %q of %s was rejected instead of becoming the unknown value: %v", text, n.Full(), err)
+					}
+					continue
 				}
 				if got := int(dv.Int()); got != want {
 					tl.fail("enum-decode", c, "symbol text %q of %s decoded to constant %d, want %d (0 = the unknown value)", text, n.Full(), got, want)
@@ -527,6 +532,38 @@ func TestC11PartialUpdates(t *testing.T) {
 					}
 				}
 				if len(spec) > 0 {
+					// "... or touch an excluded field: decoding an equivalent document returns an error": the reference rendering of a
+					// legal patch is decoded through a reader carrying the exclusion spec (leading scope 1: the "patch" member, as the
+					// server does) - rejected exactly when the patch touches a matching path
+					if !legal {
+						continue
+					}
+					want := refcodec.Obj(refcodec.KV{K: "patch", V: dyn.PatchTree(S, n, p)})
+					ref := refcodec.RenderJSON(want, refcodec.JSONOpts{})
+					dvp := reflect.New(dyn.PatchTypeOf(full))
+					var derr error
+					if pn, pvv, st := hx.Try(func() {
+						r, e := restlicodec.NewJsonReaderWithExcludedFields([]byte(ref), restlicodec.NewPathSpec(spec...), 1)
+						if e != nil {
+							derr = e
+							return
+						}
+						derr = dvp.Interface().(restlicodec.Unmarshaler).UnmarshalRestLi(r)
+					}); pn {
+						tl.fail("patch-decode-excluded", c, "panic: %v\n%s", pvv, st)
+						continue
+					}
+					rec.Label("patch_decoded_with_exclusions", 1)
+					switch {
+					case touches && derr == nil:
+						tl.fail("patch-decode-excluded", c, "a partial update document of %s touching an excluded field was accepted (spec=%q): %s", full, spec, ref)
+					case !touches && derr != nil:
+						tl.fail("patch-decode-excluded", c, "a partial update document of %s touching no excluded field was rejected (spec=%q): %s: %v", full, spec, ref, derr)
+					case !touches:
+						if got := dyn.ExtractPatch(S, dvp.Elem(), n); got.Canon() != p.WithDefaults(S, n).Canon() {
+							tl.fail("patch-decode-excluded", c, "partial update did not round trip through a reader with exclusions (spec=%q):\n got =%s\n want=%s\n doc=%s", spec, got.Canon(), p.Canon(), ref)
+						}
+					}
 					continue
 				}
 				// decode the reference rendering of the same patch (no exclusions)
